@@ -57,7 +57,7 @@ def malform(rng, c):
         if not nodes:
             break
         k = rng.choice(["notype", "badtype", "edge", "edge", "edge", "dot", "rmpin", "retype_pin", "rmedge",
-                        "noout", "retype", "swap_pin", "swap_pin"])
+                        "noout", "retype", "swap_pin", "swap_pin", "inout_pin"])
         n = rng.choice(nodes)
         if k == "notype":
             g.nodes[n].pop("type", None)
@@ -85,6 +85,19 @@ def malform(rng, c):
                 g.nodes[x]["type"] = "bb_output" if g.nodes[x]["type"] == "bb_input" else "bb_input"
                 for e in list(g.in_edges(x)) + list(g.out_edges(x)):
                     g.remove_edge(*e)
+        elif k == "inout_pin":
+            # a description that lists one pin name in BOTH roles (an inout pad): whatever type the pin node has, it is
+            # mistyped for one of the two roles
+            insts = [i for i, b in c.blackboxes.items() if b.inputs()]
+            if insts:
+                i = rng.choice(sorted(insts))
+                b = c.blackboxes[i]
+                p = rng.choice(sorted(b.inputs()))
+                c.blackboxes[i] = cg.BlackBox(b.name, sorted(b.inputs()), sorted(b.outputs() | {p}))
+                if rng.random() < 0.3 and f"{i}.{p}" in g.nodes:
+                    g.nodes[f"{i}.{p}"]["type"] = "bb_output"
+                    for e in list(g.in_edges(f"{i}.{p}")):
+                        g.remove_edge(*e)
         elif k == "rmedge":
             es = list(g.edges)
             if es:
